@@ -37,7 +37,7 @@ RULE = ('(a) exhaustive: every sequence of <= 3 lines over a 35-form TAP line al
         'same grammar driven by a seeded random.Random (ddmin over lines on failure); (c) arbitrary unicode text, glued TAP fragments and '
         'decoded random bytes, fragments include 4301- and 5000-digit runs (no-raise clause); (d) whole-test verdict through TestRunTAP.parse/complete in-process: every stream of (a) '
         'with <= 4 lines x exit status {0,1,77}, one status for the other enumerated and bulk streams, {0,1,77} for the Hypothesis streams '
-        'and texts; (e) sampled streams as real protocol:tap tests under `meson test`. '
+        'and texts; (e) sampled streams as real protocol:tap tests under `meson test`; in (d) and (e) expected_exitcode: (documented as exitcode-protocol only) is varied as a circumstance. '
         'non-trivial = >= 2 test lines and >= 1 of {plan, YAML block, directive, version line} and not excluded as unspecified; distinct '
         'by the line tuple (enumerations are duplicate-free by construction, sampled cases are fingerprinted).')
 ASSUMPTIONS = [
@@ -120,9 +120,12 @@ async def _alines(lines: T.Sequence[str]) -> T.AsyncIterator[str]:
 
 def tap_run(lines: T.Sequence[str], rc: int) -> T.Tuple[bool, str]:
     """Drive TestRunTAP exactly as SingleTestRunner._run_cmd does (start -> parse(lines) -> returncode -> complete),
-    without a subprocess.  The async line iterator never suspends, so one send() runs the coroutine to its end."""
+    without a subprocess.  The async line iterator never suspends, so one send() runs the coroutine to its end.
+    expected_exitcode: is documented as 'only has effect when protocol is set to exitcode'; it is a circumstance here and is
+    varied deterministically with the stream (unset, 0, the status the program exits with, another status)."""
     from mesonbuild import mtest
-    test = types.SimpleNamespace(protocol=mtest.TestProtocol.TAP, expected_fail=False, expected_exitcode=0,
+    eec = (None, 0, rc, 3)[(len(lines) + sum(len(x) for x in lines[:3]) + rc) % 4]
+    test = types.SimpleNamespace(protocol=mtest.TestProtocol.TAP, expected_fail=False, expected_exitcode=eec,
                                  project_name='p', name='t', workdir=None)
     run = mtest.TestRun(test, {}, 't', None, False, False, False)
     if type(run).__name__ != 'TestRunTAP':
@@ -790,7 +793,9 @@ def e2e_run(root: str, cases: T.List[T.Tuple[T.List[str], int]], extra: T.Sequen
     for i, (lines, rc) in enumerate(cases):
         files[f's/{i}.tap'] = ''.join(lines).encode('utf-8')
         noise = ", 'noise'" if i % 2 else ''
-        mb.append(f"test('t{i:05d}', py, args: [emit, files('s/{i}.tap'), '{rc}'{noise}], protocol: 'tap')")
+        # expected_exitcode: 'only has effect when protocol is set to exitcode' (yaml reference): a circumstance for a TAP test
+        eec = '' if i % 3 else f", expected_exitcode: {rc if i % 2 else 3}"
+        mb.append(f"test('t{i:05d}', py, args: [emit, files('s/{i}.tap'), '{rc}'{noise}], protocol: 'tap'{eec})")
     files['meson.build'] = '\n'.join(mb) + '\n'
     mesondrv.write_tree(root, files)
     r = mesondrv.run_sub(['setup', '--backend=none', 'b'], cwd=root)
